@@ -153,12 +153,15 @@ impl<T> Timer<T> {
             Timer::Real(t) => t.poll(),
             Timer::Virtual(v) => {
                 let now = clock::now_ns();
+                let newest_first = clock::timer_tie_newest_first();
                 let mut pending = v.shared.pending.lock().unwrap_or_else(|e| e.into_inner());
                 let best = pending
                     .iter()
                     .enumerate()
                     .filter(|(_, (d, _))| *d <= now)
-                    .min_by_key(|(_, (d, id))| (*d, *id))
+                    .min_by_key(|(_, (d, id))| {
+                        (*d, if newest_first { u64::MAX - *id } else { *id })
+                    })
                     .map(|(idx, _)| idx);
                 match best {
                     Some(idx) => {
